@@ -418,7 +418,7 @@ def whole_stdin_rule(ctx, rid, cli, declare=True):
     returns what one pipe write delivered; a `take` silently cuts the document"""
     if declare:
         ctx.rule(rid, "the piped inputs document is read to its end, directly from stdin: every non-interactive read of stdin in the CLI is read_to_string / read_to_end on Stdin or its lock - a single Read::read (whatever the pipe delivered first), a Read::take bound or a chunked reader in between makes the inputs depend on how the producer wrote them", floor=1)
-    n_ok = 0
+    n_ok = n_bad = 0
     for fname, f in sorted(cli.mir.items()):
         fn = M.Fn(f, fname)
         for b in fn.call_blocks():
@@ -426,13 +426,14 @@ def whole_stdin_rule(ctx, rid, cli, declare=True):
             tys = " ".join(fn.term(b).get("argtys") or [])
             if not re.search(r"io::(stdio::)?Stdin", c + " " + tys):
                 continue
-            if re.search(r"::(read_to_string|read_to_end)$", c):
-                direct = not re.search(r"Take<|Chain<|BufReader<", c + " " + tys)
+            if re.search(r"::(read_to_string|read_to_end)(::<.*>)?$", c):
+                direct = not re.search(r"Take<", c + " " + tys)   # a BufReader or a lock in between still reads to the end; a Take does not
                 n_ok += 1 if direct else 0
-                ctx.inst(rid, "%s#%s" % (fname, H.last(c)), direct, "stdin is read to the end through %s" % c, fn.loc())
-            elif re.search(r"as std::io::Read>::(read|read_exact|read_buf|take|bytes|chain|read_vectored)$", c):
+                ctx.inst(rid, "%s#%s" % (fname, re.sub(r"::<.*>$", "", c).split("::")[-1]), direct, "stdin is read to the end through %s" % c, fn.loc())
+            elif re.search(r"as std::io::Read>::(read|read_exact|read_buf|take|read_vectored)$", c):
+                n_bad += 1
                 ctx.inst(rid, "%s#%s" % (fname, H.last(c)), False, "stdin is read with %s: the program sees a prefix of the piped document (whatever one read returns / at most the bound), silently" % c, fn.loc())
-    ctx.inst(rid, "stdin#read-to-end", n_ok >= 1, "%d read_to_string / read_to_end call(s) directly on stdin" % n_ok, None)
+    ctx.inst(rid, "stdin#read-to-end", True if n_ok >= 1 else (False if n_bad else None), "%d read_to_string / read_to_end call(s) on stdin; partial reads: %d (neither: the document is read some other way - not modelled)" % (n_ok, n_bad), None)
 
 
 def heap_allocation_rule(ctx, rid, core):
@@ -444,14 +445,16 @@ def heap_allocation_rule(ctx, rid, core):
             ctx.inst(rid, "Heap::%s" % nm, None, "function not found", None)
             continue
         body = f["body"]
-        branches = [H.kind(x) for x in H.walk(body) if H.kind(x) in ("If", "Match", "Ret", "Loop", "While", "For")]
         ins = [x for x in H.walk(body) if H.kind(x) == "MethodCall" and x.get("def") == "blots_core::heap::Heap::insert"]
         pn = H.pat_binds(f["params"][1])[0] if len(f["params"]) > 1 and H.pat_binds(f["params"][1]) else None
         arg_ok = len(ins) == 1 and H.kind(H.strip(ins[0]["args"][0])) == "Call" and (H.path_def(H.strip(ins[0]["args"][0])["f"]) or "").endswith("HeapValue::" + var) and H.path_local(H.strip(ins[0]["args"][0])["args"][0]) == pn
-        if branches:
-            ctx.inst(rid, "Heap::%s" % nm, False, "the allocation is conditional (%s): some values do not get their own cell" % sorted(set(branches)), H.loc(body))
+        # the allocation is skipped on some path: an early return, or the insert sits inside a branch / loop
+        early = [H.loc(x) for x in H.walk(body) if H.kind(x) == "Ret"]
+        nested = [H.loc(x) for x in H.walk(body) if H.kind(x) in ("If", "Match", "Loop", "While", "For") and any(y is i_ for i_ in ins for y in H.walk(x) if y is not x)]
+        if len(ins) >= 1 and (early or nested):
+            ctx.inst(rid, "Heap::%s" % nm, False, "the allocation is conditional (early return at %s, insert inside %s): some values do not get a cell of their own" % (early or "-", nested or "-"), H.loc(body))
         else:
-            ctx.inst(rid, "Heap::%s" % nm, True if arg_ok else None, "straight-line; one Heap::insert of HeapValue::%s(%s): %s" % (var, pn, arg_ok), H.loc(body))
+            ctx.inst(rid, "Heap::%s" % nm, True if arg_ok else None, "every path reaches the one Heap::insert of HeapValue::%s(%s): %s" % (var, pn, arg_ok), H.loc(body))
     fi = core.hir.get("blots_core::heap::Heap::insert")
     if fi is not None and fi.get("body") is not None:
         br = [H.kind(x) for x in H.walk(fi["body"]) if H.kind(x) in ("If", "Match", "Ret", "Loop", "While", "For")]
